@@ -4,7 +4,8 @@
    swap the delivered batch projected to: the four ConfigMap data tokens, the fifteen
    per-kind lists as object ids (order kept: append order), NeedFullSync, Objects (order
    kept), Links per resource type (names in order; resource types sorted by the harness,
-   Go map). *)
+   Go map). The per-swap observation is a deep snapshot taken at delivery; all delivered
+   batches are read again at the end of the history (wfinal). *)
 From Coq Require Export ZArith NArith List Bool String.
 From HI Require Export Model.Watch.
 Export ListNotations.
@@ -23,7 +24,11 @@ Inductive wobs :=
 | OEv (accepted : N) (notifs : list bool)
 | OSwap (b : obatch).
 
-Record wcase := { wid : N; wcfg : config; wsteps : list step; wobs_l : list wobs }.
+(* wfinal: every delivered batch, kept by the harness as the pointer getChangedObjects
+   returned, read AGAIN after the whole history was fired: a later event must never change
+   a delivered batch (no shared backing array, no write into a delivered map) *)
+Record wcase := { wid : N; wcfg : config; wsteps : list step; wobs_l : list wobs;
+                  wfinal : list obatch }.
 
 Definition all_lnames : list lname :=
   [IngAdd; IngUpd; IngDel; GwA2Add; GwA2Upd; GwA2Del; GwcA2Add; GwcA2Upd; GwcA2Del;
@@ -91,7 +96,16 @@ Fixpoint wcheck (cfg : config) (st : wstate) (steps : list step) (obs : list wob
   | _, _ => false
   end.
 
-Definition wcase_ok (c : wcase) : bool := wcheck (wcfg c) w_init (wsteps c) (wobs_l c).
+Fixpoint batches_ok (ms : list chg) (os : list obatch) : bool :=
+  match ms, os with
+  | [], [] => true
+  | m :: ms', o :: os' => batch_ok m o && batches_ok ms' os'
+  | _, _ => false
+  end.
+
+Definition wcase_ok (c : wcase) : bool :=
+  wcheck (wcfg c) w_init (wsteps c) (wobs_l c) &&
+  batches_ok (w_batches (wrun (wcfg c) (wsteps c))) (wfinal c).
 
 Definition mismatches (cs : list wcase) : list N :=
   map wid (filter (fun c => negb (wcase_ok c)) cs).
